@@ -16,9 +16,9 @@ theorem find_nil_of_undefined {g : DirGraph} (h : g.isDefined = false) (k : Stri
     | cons a l => simp [hn] at h
   simp [DirGraph.find, findNode, this]
 
-/-- the loader ran the cycle DFS for the root node -/
-theorem dfsFrom_root {d : Dir} {g : DirGraph} (hv : validateDirection d g = .ok ()) {r : String} {n : Node}
-    (hr : g.root = some r) (hn : g.find r = some n) : dfsFrom g n = true := by
+/-- the loader ran the cycle DFS for every node -/
+theorem dfsFrom_of_validated {d : Dir} {g : DirGraph} (hv : validateDirection d g = .ok ()) {k : String} {n : Node}
+    (hn : g.find k = some n) : dfsFrom g n = true := by
   unfold validateDirection at hv
   by_cases hdef : g.isDefined = true
   · simp only [hdef, Bool.not_true, Bool.false_eq_true, if_false] at hv
@@ -30,25 +30,18 @@ theorem dfsFrom_root {d : Dir} {g : DirGraph} (hv : validateDirection d g = .ok 
         · exact absurd hv (by simp)
         · rename_i hc
           simp only [Bool.not_eq_true', Bool.not_eq_false] at hc
-          unfold noCycleFromRoot at hc
-          simp only [hr, hn] at hc
-          exact hc
-  · have := find_nil_of_undefined (by simpa using hdef) r
+          unfold noCycleAnywhere at hc
+          rw [List.all_eq_true] at hc
+          exact hc n (find_mem hn)
+  · have := find_nil_of_undefined (by simpa using hdef) k
     rw [this] at hn
     exact absurd hn (by simp)
 
-theorem walk_root_ok (f : Flow) (o : Oracle) (d : Dir) (hv : validateDirection d (f.dir d) = .ok ())
-    {r : String} (hr : (f.dir d).root = some r) (fuel : Nat) (hf : depthOf (f.dir d) ≤ fuel) :
-    WOk (dirBound (f.dir d)) (walk f o d fuel r) :=
-  walk_of_bounded f o d r _ (bounded_of_dfsFrom (f.dir d) r (fun _ hn => dfsFrom_root hv hr hn)) fuel hf
-
-theorem walk_any_ok (f : Flow) (o : Oracle) (d : Dir) (hs : noCycleAnywhere (f.dir d) = true)
+/-- **every entry point of a validated direction is safe** -/
+theorem walk_any_ok (f : Flow) (o : Oracle) (d : Dir) (hv : validateDirection d (f.dir d) = .ok ())
     (k : String) (fuel : Nat) (hf : depthOf (f.dir d) ≤ fuel) :
     WOk (dirBound (f.dir d)) (walk f o d fuel k) :=
-  walk_of_bounded f o d k _ (bounded_of_dfsFrom (f.dir d) k (fun n hn => by
-    unfold noCycleAnywhere at hs
-    rw [List.all_eq_true] at hs
-    exact hs n (find_mem hn))) fuel hf
+  walk_of_bounded f o d k _ (bounded_of_dfsFrom (f.dir d) k (fun _ hn => dfsFrom_of_validated hv hn)) fuel hf
 
 theorem wok_enter {b : Nat} {w : WalkRes} (h : WOk b w) (fl : String) (d : Dir) :
     WOk b { w with trace := Event.enter fl d :: w.trace } :=
@@ -57,37 +50,17 @@ theorem wok_enter {b : Nat} {w : WalkRes} (h : WOk b w) (fl : String) (d : Dir) 
 theorem wok_only_enter (b : Nat) (fl : String) (d : Dir) : WOk b { trace := [Event.enter fl d] } :=
   ⟨by simp, by simp [steps_cons_enter, steps_nil]⟩
 
-/-- **one flow, one direction**: from the root always; from a short-circuit node when the cycle check
-    would have passed from every node -/
+/-- **one flow, one direction**, from the root or from any short-circuit node -/
 theorem executeFlow_ok (f : Flow) (o : Oracle) (d : Dir) (fuel : Nat) (sf : Option String)
-    (hv : validateDirection d (f.dir d) = .ok ())
-    (hs : sf = none ∨ noCycleAnywhere (f.dir d) = true)
-    (hf : depthOf (f.dir d) ≤ fuel) :
+    (hv : validateDirection d (f.dir d) = .ok ()) (hf : depthOf (f.dir d) ≤ fuel) :
     WOk (dirBound (f.dir d)) (executeFlow f o d fuel sf) := by
   unfold executeFlow
   simp only []
   split
   · exact wok_only_enter _ _ _
-  · cases hb : sf.bind (f.dir d).find with
-    | none =>
-      simp only []
-      cases hr : (f.dir d).root with
-      | none => exact wok_only_enter _ _ _
-      | some r =>
-        simp only []
-        rcases hs with rfl | hany
-        · exact wok_enter (walk_root_ok f o d hv hr fuel hf) _ _
-        · exact wok_enter (walk_any_ok f o d hany r fuel hf) _ _
-    | some n =>
-      have hany : noCycleAnywhere (f.dir d) = true := by
-        rcases hs with h | h
-        · subst h
-          simp at hb
-        · exact h
-      simp only []
-      split
-      · exact wok_only_enter _ _ _
-      · exact wok_enter (walk_any_ok f o d hany _ fuel hf) _ _
+  · split
+    · exact wok_only_enter _ _ _
+    · exact wok_enter (walk_any_ok f o d hv _ fuel hf) _ _
 
 /-! ### lists of flows -/
 
@@ -124,7 +97,7 @@ theorem runUserReq_ok (o : Oracle) (fuel : Nat) : ∀ (fls : List Flow), Ready f
   | [], _ => by simp [runUserReq, steps_nil]
   | f :: fls, h => by
     have hf := h f List.mem_cons_self
-    have hr := executeFlow_ok f o .req fuel none (hf.1 .req) (Or.inl rfl) (hf.2 .req)
+    have hr := executeFlow_ok f o .req fuel none (hf.1 .req) (hf.2 .req)
     have ih := runUserReq_ok o fuel fls h.tail
     unfold runUserReq
     simp only []
@@ -149,20 +122,12 @@ theorem runUserReq_ok (o : Oracle) (fuel : Nat) : ∀ (fls : List Flow), Ready f
         omega
 
 theorem runUserRes_ok (o : Oracle) (fuel : Nat) (sc : Option (String × String)) :
-    ∀ (fls : List Flow), Ready fuel fls → (sc = none ∨ ∀ f ∈ fls, noCycleAnywhere f.res = true) →
-    WOk (sumDir .res fls) (runUserRes o fuel sc fls)
-  | [], _, _ => by simp [runUserRes, WOk, steps_nil]
-  | f :: fls, h, hs => by
+    ∀ (fls : List Flow), Ready fuel fls → WOk (sumDir .res fls) (runUserRes o fuel sc fls)
+  | [], _ => by simp [runUserRes, WOk, steps_nil]
+  | f :: fls, h => by
     have hf := h f List.mem_cons_self
-    have hs' : startFor sc f = none ∨ noCycleAnywhere (f.dir .res) = true := by
-      rcases hs with rfl | hs
-      · exact Or.inl rfl
-      · exact Or.inr (hs f List.mem_cons_self)
-    have hr := executeFlow_ok f o .res fuel (startFor sc f) (hf.1 .res) hs' (hf.2 .res)
-    have ih := runUserRes_ok o fuel sc fls h.tail (by
-      rcases hs with rfl | hs
-      · exact Or.inl rfl
-      · exact Or.inr fun g hg => hs g (List.mem_cons_of_mem _ hg))
+    have hr := executeFlow_ok f o .res fuel (startFor sc f) (hf.1 .res) (hf.2 .res)
+    have ih := runUserRes_ok o fuel sc fls h.tail
     unfold runUserRes
     simp only []
     rw [sumDir_cons]
@@ -180,12 +145,8 @@ theorem runUserRes_ok (o : Oracle) (fuel : Nat) (sc : Option (String × String))
 def TOk (b : Nat) (r : TxnRes) : Prop := r.err ≠ some .fuel ∧ steps r.trace ≤ b
 
 theorem executeRes_ok (o : Oracle) (fuel : Nat) (fls : List Flow) (sc : Option (String × String))
-    (h : Ready fuel fls) (hs : sc = none ∨ ∀ f ∈ fls, noCycleAnywhere f.res = true) :
-    TOk (sumDir .res fls) (executeRes (selected fls) o fuel sc) := by
-  have hb := runUserRes_ok o fuel sc fls.reverse h.reverse (by
-    rcases hs with rfl | hs
-    · exact Or.inl rfl
-    · exact Or.inr fun g hg => hs g (List.mem_reverse.mp hg))
+    (h : Ready fuel fls) : TOk (sumDir .res fls) (executeRes (selected fls) o fuel sc) := by
+  have hb := runUserRes_ok o fuel sc fls.reverse h.reverse
   rw [sumDir_reverse] at hb
   unfold executeRes selected
   simp only [List.reverse_nil, runAll]
@@ -196,8 +157,7 @@ theorem executeRes_ok (o : Oracle) (fuel : Nat) (fls : List Flow) (sc : Option (
   · simp only [herr, Bool.false_eq_true, if_false]
     exact ⟨by simp, hb.2⟩
 
-theorem executeReq_ok (o : Oracle) (fuel : Nat) (fls : List Flow)
-    (h : Ready fuel fls) (hs : ∀ f ∈ fls, noCycleAnywhere f.res = true) :
+theorem executeReq_ok (o : Oracle) (fuel : Nat) (fls : List Flow) (h : Ready fuel fls) :
     TOk (bound fls) (executeReq (selected fls) o fuel) := by
   have ha := runUserReq_ok o fuel fls h
   rw [bound_eq]
@@ -214,7 +174,7 @@ theorem executeReq_ok (o : Oracle) (fuel : Nat) (fls : List Flow)
     cases sc with
     | none => exact ⟨by simp, Nat.le_trans ha.2 (Nat.le_add_right _ _)⟩
     | some p =>
-      have hr := executeRes_ok o fuel fls (some p) h (Or.inr hs)
+      have hr := executeRes_ok o fuel fls (some p) h
       unfold selected at hr
       simp only []
       refine ⟨hr.1, ?_⟩
@@ -223,19 +183,14 @@ theorem executeReq_ok (o : Oracle) (fuel : Nat) (fls : List Flow)
       have h2 := hr.2
       omega
 
-/-- a response transaction never needs the F05a exclusion: it always starts at the root -/
-theorem responseTxn_ok (o : Oracle) (fuel : Nat) (fls : List Flow) (h : Ready fuel fls) :
-    TOk (bound fls) (transaction (selected fls) o fuel .res) := by
-  have := executeRes_ok o fuel fls none h (Or.inl rfl)
-  rw [bound_eq]
-  exact ⟨this.1, Nat.le_trans this.2 (Nat.le_add_left _ _)⟩
-
-theorem transaction_ok (o : Oracle) (fuel : Nat) (fls : List Flow) (d : Dir)
-    (h : Ready fuel fls) (hs : ∀ f ∈ fls, noCycleAnywhere f.res = true) :
+theorem transaction_ok (o : Oracle) (fuel : Nat) (fls : List Flow) (d : Dir) (h : Ready fuel fls) :
     TOk (bound fls) (transaction (selected fls) o fuel d) := by
   cases d with
-  | req => exact executeReq_ok o fuel fls h hs
-  | res => exact responseTxn_ok o fuel fls h
+  | req => exact executeReq_ok o fuel fls h
+  | res =>
+    have := executeRes_ok o fuel fls none h
+    rw [bound_eq]
+    exact ⟨this.1, Nat.le_trans this.2 (Nat.le_add_left _ _)⟩
 
 /-! ### what the loader establishes -/
 
@@ -319,107 +274,19 @@ theorem buildAll_validated {pts : List PType} {fs : List XFlow} : ∀ {xs : List
         · exact buildOne_validated hb
         · exact buildAll_validated hr f hf'
 
-theorem load_validated {c : Cfg} {fls : List Flow} (h : load c = .accept fls) : ∀ f ∈ fls, Validated f := by
+theorem load_accept_build {c : Cfg} {fls : List Flow} (h : load c = .accept fls) :
+    buildAll c.ptypes c.flows c.flows none = .ok fls := by
   unfold load at h
-  split at h
-  · exact absurd h (by simp)
-  · exact absurd h (by simp)
-  · split at h
-    · exact absurd h (by simp)
-    · split at h
-      · exact absurd h (by simp)
-      · split at h
-        · exact absurd h (by simp)
-        · split at h
-          · exact absurd h (by simp)
-          · split at h
-            · exact absurd h (by simp)
-            · exact absurd h (by simp)
-            · rename_i hb
-              simp only [LoadRes.accept.injEq] at h
-              subst h
-              exact buildAll_validated hb
+  repeat' (split at h)
+  all_goals first
+    | (rename_i hb
+       simp only [LoadRes.accept.injEq] at h
+       subst h
+       exact hb)
+    | (simp at h)
 
-/-! ### the bound of the Spec is the bound of the loaded flows -/
-
-theorem buildFlow_raw {pts : List PType} {fs : List XFlow} {x : XFlow} {f : Flow} (hx : x.refFree = true)
-    (h : buildFlow pts x.rep = .ok f) : rawFlow pts fs x = some f := by
-  unfold buildFlow at h
-  unfold rawFlow
-  simp only [hx, if_true]
-  split at h
-  · exact absurd h (by simp)
-  · rename_i rq hrq
-    split at h
-    · exact absurd h (by simp)
-    · rename_i rs hrs
-      split at h
-      · exact absurd h (by simp)
-      · split at h
-        · exact absurd h (by simp)
-        · split at h
-          · exact absurd h (by simp)
-          · simp only [Except.ok.injEq] at h
-            subst h
-            have h1 : buildConnections pts x.rep.procs .req {} x.rep.req = .ok rq := hrq
-            have h2 : buildConnections pts x.rep.procs .res {} x.rep.res = .ok rs := hrs
-            simp only [h1, h2]
-            rfl
-
-theorem buildAll_raw {pts : List PType} {fs : List XFlow} : ∀ (xs : List XFlow) (fo : Option String)
-    (fls : List Flow), xs.all (·.refFree) = true → buildAll pts fs xs fo = .ok fls →
-    xs.filterMap (rawFlow pts fs) = fls
-  | [], _, fls, _, h => by
-    simp only [buildAll, Except.ok.injEq] at h
-    subst h
-    rfl
-  | x :: xs, fo, fls, hfree, h => by
-    simp only [List.all_cons, Bool.and_eq_true] at hfree
-    unfold buildAll at h
-    split at h
-    · exact absurd h (by simp)
-    · rename_i fl fo' hb
-      split at h
-      · exact absurd h (by simp)
-      · rename_i rest hr
-        simp only [Except.ok.injEq] at h
-        subst h
-        have hfl : rawFlow pts fs x = some fl := by
-          unfold buildOne at hb
-          simp only [hfree.1, if_true] at hb
-          split at hb
-          · exact absurd hb (by simp)
-          · rename_i f' hf'
-            simp only [Except.ok.injEq, Prod.mk.injEq] at hb
-            obtain ⟨rfl, _⟩ := hb
-            exact buildFlow_raw hfree.1 hf'
-        simp only [List.filterMap_cons, hfl]
-        rw [buildAll_raw xs fo' rest hfree.2 hr]
-
-theorem load_raw {c : Cfg} {fls : List Flow} (h : load c = .accept fls) (hb : f05b c = false) :
-    rawFlows c = fls := by
-  have hall : c.flows.all (·.refFree) = true := by
-    unfold f05b at hb
-    simpa using hb
-  unfold load at h
-  split at h
-  · exact absurd h (by simp)
-  · exact absurd h (by simp)
-  · split at h
-    · exact absurd h (by simp)
-    · split at h
-      · exact absurd h (by simp)
-      · split at h
-        · exact absurd h (by simp)
-        · split at h
-          · exact absurd h (by simp)
-          · split at h
-            · exact absurd h (by simp)
-            · exact absurd h (by simp)
-            · rename_i hbuild
-              simp only [LoadRes.accept.injEq] at h
-              subst h
-              exact buildAll_raw c.flows none _ hall hbuild
+theorem load_validated {c : Cfg} {fls : List Flow} (h : load c = .accept fls) : ∀ f ∈ fls, Validated f :=
+  buildAll_validated (load_accept_build h)
 
 /-! ### the walker's fuel covers every loaded direction -/
 
@@ -457,108 +324,5 @@ theorem walkFuel_covers (fls : List Flow) (f : Flow) (hf : f ∈ fls) (d : Dir) 
 
 theorem load_ready {c : Cfg} {fls : List Flow} (h : load c = .accept fls) : Ready (walkFuel fls) fls :=
   fun f hf => ⟨load_validated h f hf, walkFuel_covers fls f hf⟩
-
-/-! ### loading ends with accept or reject (reference-free, no null quota entries) -/
-
-theorem buildOne_refFree_noFuel {pts : List PType} {fs : List XFlow} {x : XFlow} {fo : Option String}
-    (hx : x.refFree = true) : buildOne pts fs x fo ≠ .error .fuel := by
-  unfold buildOne
-  simp only [hx, if_true]
-  split <;> simp
-
-theorem buildAll_refFree_noFuel {pts : List PType} {fs : List XFlow} : ∀ (xs : List XFlow) (fo : Option String),
-    xs.all (·.refFree) = true → buildAll pts fs xs fo ≠ .error .fuel
-  | [], _, _ => by simp [buildAll]
-  | x :: xs, fo, h => by
-    simp only [List.all_cons, Bool.and_eq_true] at h
-    unfold buildAll
-    split
-    · rename_i e he
-      intro hc
-      simp only [Except.error.injEq] at hc
-      subst hc
-      exact buildOne_refFree_noFuel h.1 he
-    · rename_i fl fo' _
-      split
-      · rename_i e he
-        intro hc
-        simp only [Except.error.injEq] at hc
-        subst hc
-        exact buildAll_refFree_noFuel xs fo' h.2 he
-      · simp
-
-theorem load_no_crash {c : Cfg} (h : f05b c = false) : load c ≠ .crash := by
-  have hall : c.flows.all (·.refFree) = true := by
-    unfold f05b at h
-    simpa using h
-  unfold load
-  split
-  · simp
-  · simp
-  · split
-    · simp
-    · split
-      · simp
-      · split
-        · simp
-        · split
-          · simp
-          · split
-            · rename_i hb
-              exact absurd hb (buildAll_refFree_noFuel c.flows none hall)
-            · simp
-            · simp
-
-theorem filesCheck_panic : ∀ (fs : List QFile) (i : Nat) (st : List (Nat × List Char) × List (List Char × Nat)),
-    filesCheck i st fs = .panic → (fs.any fun f => f.quotas.any (·.null) || f.internals.any (·.null)) = true
-  | [], _, _, h => by simp [filesCheck] at h
-  | f :: fs, i, st, h => by
-    unfold filesCheck at h
-    simp only [List.any_cons, Bool.or_eq_true]
-    split at h
-    · rename_i hp
-      left
-      unfold fileCheck at hp
-      split at hp
-      · exact absurd hp (by simp)
-      · split at hp
-        · rename_i hn
-          simpa using hn
-        · split at hp
-          · exact absurd hp (by simp)
-          · split at hp
-            · exact absurd hp (by simp)
-            · split at hp <;> exact absurd hp (by simp)
-    · exact absurd h (by simp)
-    · split at h
-      · exact absurd h (by simp)
-      · right
-        have := filesCheck_panic fs _ _ h
-        simpa using this
-
-theorem load_no_panic {c : Cfg} (h : f05c c = false) : ∀ cls, load c ≠ .panic cls := by
-  intro cls hl
-  unfold load at hl
-  split at hl
-  · rename_i hq
-    unfold quotaCheck at hq
-    split at hq
-    · rename_i hp
-      have := filesCheck_panic c.qfiles 0 ([], []) hp
-      unfold f05c at h
-      rw [this] at h
-      exact absurd h (by simp)
-    · exact absurd hq (by simp)
-    · split at hq <;> exact absurd hq (by simp)
-  · exact absurd hl (by simp)
-  · split at hl
-    · exact absurd hl (by simp)
-    · split at hl
-      · exact absurd hl (by simp)
-      · split at hl
-        · exact absurd hl (by simp)
-        · split at hl
-          · exact absurd hl (by simp)
-          · split at hl <;> exact absurd hl (by simp)
 
 end LunarVerif.C05
